@@ -200,7 +200,7 @@ def run_property(prop, tier='quick', seed=0, replay=None):
     mod = importlib.import_module('rules.%s' % prop.lower())
     configs = ['default']
     if tier == 'thorough':
-        configs = getattr(mod, 'THOROUGH_CONFIGS', ['default', 'nodefault', 'malformed'])
+        configs = getattr(mod, 'THOROUGH_CONFIGS', ['default', 'nodefault', 'malformed', 'forwarding', 'largersa'])
     all_obs = []
     meta = dict(configs=[], functions=set(), notes=[], trusted=set(), extra={})
     fatal = None
@@ -229,11 +229,12 @@ def run_property(prop, tier='quick', seed=0, replay=None):
         meta['extra'].update(getattr(ctx, 'extra', {}))
     # thorough extras (self-tests etc.) are run by the module if it defines them
     selftests = []
-    if tier == 'thorough' and hasattr(mod, 'thorough_extra'):
+    if tier == 'thorough' and not replay:
         try:
-            selftests = mod.thorough_extra(prop, seed) or []
+            import selftest
+            selftests = selftest.run_for(prop, seed, REPO)
         except Exception as e:
-            selftests = [dict(name='thorough_extra', ok=False, detail=traceback.format_exc())]
+            selftests = [dict(name='selftest', ok=False, detail=traceback.format_exc())]
         for st in selftests:
             if not st.get('ok'):
                 all_obs.append(dict(key='selftest:' + st['name'], rule='selftest', desc='checker self-test failed: ' + st['name'], status='violation', detail=st, config='selftest'))
